@@ -1,4 +1,5 @@
-"""Regenerate every coq/Gen/*.v from /repo's current sources (used by setup and by each check)."""
+"""Regenerate every coq/Gen/*.v from the current sources of the tree under test.
+Each property module tools/props/cXX.py may define  GEN = [(gen_file_name, zero-arg callable -> Coq text)]."""
 import importlib
 import os
 import sys
@@ -6,19 +7,29 @@ import sys
 sys.path.insert(0, os.path.dirname(os.path.abspath(__file__)))
 import vlib  # noqa: E402
 
-# (Gen file name, module under tools/translate, function returning the Coq text)
-GENERATORS = [
-    ("OptDefaults", "translate.options", lambda m: m.generate()[0]),
-]
+
+def generators():
+    out, seen = [], set()
+    pdir = os.path.join(os.path.dirname(os.path.abspath(__file__)), "props")
+    for f in sorted(os.listdir(pdir)):
+        if f.startswith("c") and f.endswith(".py"):
+            try:
+                mod = importlib.import_module("props." + f[:-3])
+            except Exception as e:
+                print("gen: cannot import props.%s: %r" % (f[:-3], e))
+                continue
+            for name, fn in getattr(mod, "GEN", []):
+                if name not in seen:
+                    seen.add(name)
+                    out.append((name, fn))
+    return out
 
 
 def main():
     rc = 0
-    for name, modname, fn in GENERATORS:
+    for name, fn in generators():
         try:
-            mod = importlib.import_module(modname)
-            text = fn(mod)
-            ch = vlib.write_if_changed(os.path.join(vlib.COQ, "Gen", name + ".v"), text)
+            ch = vlib.write_if_changed(os.path.join(vlib.COQ, "Gen", name + ".v"), fn())
             print("gen %-20s %s" % (name, "updated" if ch else "unchanged"))
         except Exception as e:
             print("gen %-20s FAILED: %r" % (name, e))
